@@ -14,11 +14,57 @@
    C18_elim_kind_refuted   (a) the error KIND when every order fails;
    C18_elim_ref_refuted    the raw [reference] field of a FULFILLED elimination
                            constraint (variable vs. the operation it was bound
-                           to) - invisible after follow(). *)
+                           to) - invisible after follow().
+
+   Proved (Infer/SchedIndepElimA.v, SchedIndepElimR.v, SchedIndepElim.v), for
+   every well-formed hierarchy, all fuels and ALL schedules (the entries used by
+   the rounds nested in the round included):
+
+   C18_elim_round          ONE re-check round check_constraints(v) - with every
+                           round nested in it - started in a store s with
+                           [RoundPre H s v] under two schedules: both succeed and
+                           the final stores agree on all cells (bindings, bounds,
+                           wildcard flags), all constraint sets and all constraint
+                           records except the raw reference of fulfilled elimination
+                           constraints ([eqk]: same alternatives IN THE SAME ORDER,
+                           same fulfilled flags, references equal after follow);
+                           or both fail; or one of the two ran out of fuel.
+   C18_elim_round_fuel     with 5 * und s + 5 units of fuel (C17_term_elim_cc): both
+                           succeed ([eqk]) or both fail with a declared error.
+   C18_elim_round_hyp      the hypothesis in elementary terms: JE, inv (C03_elim_final),
+                           the alternatives of every elimination constraint pairwise
+                           equal-or-incomparable (what minimize leaves), every pending
+                           elimination constraint of the set of v refers to an unbound
+                           variable pointing to this set or is settled (re-checking it
+                           is a no-op), a fulfilled subtype constraint of the set holds.
+   C18_elim_round_example  the hypothesis holds of a reachable store (three interacting
+                           constraints on one variable, rounds nested three deep).
+
+   How it is proved: the filter of fulfill is MONOTONE in the bounds on a forest
+   (an alternative kept under tighter bounds is kept under looser ones), every
+   complete round ends with all constraints of the set settled, and a run that
+   starts above the end t of another run stays above t and cannot fail; two ends
+   dominate each other, so the cells coincide, and the records and the set are
+   functions of the cells and of the starting store.
+
+   PARTIAL / missing for whole programs (full statement aimed at:
+     forall H prog sc1 sc2 fuel, wf_hier H -> progE H 0 prog -> prog_fuelE prog <= fuel ->
+       the two runs fail at the same command, or both succeed with the same values
+       and [eqk] stores):
+   what is missing is the invariant that every store in which the engine starts a
+   round satisfies [RoundPre] (in particular: a pending elimination constraint that
+   sits in the set of v but refers to a variable of ANOTHER set - this happens after
+   a variable was bound to a compound type and one of its variables was unified
+   later - is settled), threaded through unify / bind / above / below / fix /
+   instance as C03_elim_K_ops does for the weaker invariant Kp, plus the relational
+   lifting of Infer/SchedIndep.v redone modulo [eqk].  Without that invariant the
+   statement for arbitrary stores is false (a constraint fulfilled in a nested round
+   on another set stays in the outer set or not, depending on the order). *)
 From Coq Require Import List Arith Bool.
 Import ListNotations.
-From TF Require Import Base.Hier Base.Ty Infer.Store Infer.Engine Infer.Run Infer.SoundElimS
-  Infer.SchedIndepElim.
+From TF Require Import Base.Hier Base.Ty Infer.Store Infer.Engine Infer.Run Infer.Inv Infer.SchedIndep
+  Infer.SoundElimS Infer.TermElim Infer.SchedIndepElimA Infer.SchedIndepElimR Infer.SchedIndepElim.
+From TF Require Infer.FitsEngineList.
 
 Theorem C18_elim_kind_refuted : exists H prog sc1 sc2, progE H 0 prog /\
   fst (fst (run_cmds H 100 prog 0 [] (empty_store sc1))) = Some (ETypeMismatch, 2) /\
@@ -39,3 +85,98 @@ Theorem C18_elim_ref_refuted : exists H prog sc1 sc2, progE H 0 prog /\
   map k_ref (constrs (snd r2)) = [V 0; V 0; V 0].
 Proof. exact ref_refuted. Qed.
 Print Assumptions C18_elim_ref_refuted.
+
+(* ---- one re-check round, any two schedules ---- *)
+Theorem C18_elim_round : forall H, wf_hier H -> forall f1 f2 v s sc1 sc2, RoundPre H s v ->
+  match check_constraints H f1 v (with_sched s sc1), check_constraints H f2 v (with_sched s sc2) with
+  | MOk _ t1, MOk _ t2 => eqk t1 t2
+  | MOk _ _, MEr e _ => e = EFuel
+  | MEr e _, MOk _ _ => e = EFuel
+  | MEr _ _, MEr _ _ => True
+  end.
+Proof. exact round_indep. Qed.
+Print Assumptions C18_elim_round.
+
+Theorem C18_elim_round_fuel : forall H, wf_hier H -> forall f1 f2 v s sc1 sc2, RoundPre H s v ->
+  5 * und s + 5 <= f1 -> 5 * und s + 5 <= f2 ->
+  match check_constraints H f1 v (with_sched s sc1), check_constraints H f2 v (with_sched s sc2) with
+  | MOk _ t1, MOk _ t2 => eqk t1 t2
+  | MEr e1 _, MEr e2 _ => e1 <> EFuel /\ e2 <> EFuel
+  | _, _ => False
+  end.
+Proof. exact round_indep_fuel. Qed.
+Print Assumptions C18_elim_round_fuel.
+
+(* what "the same store" means: everything but the raw reference of a fulfilled
+   elimination constraint *)
+Example C18_elim_eqk_unfold : forall t1 t2,
+  eqk t1 t2 <->
+  vars t1 = vars t2 /\ csets t1 = csets t2 /\ length (constrs t1) = length (constrs t2) /\
+  forall c, let k1 := constr_of t1 c in let k2 := constr_of t2 c in
+    k_elim k1 = k_elim k2 /\ k_alts k1 = k_alts k2 /\ k_strict k1 = k_strict k2 /\ k_done k1 = k_done k2 /\
+    follow t1 (k_ref k1) = follow t2 (k_ref k2) /\
+    (k_ref k1 = k_ref k2 \/ (k_elim k1 = true /\ k_done k1 = true)).
+Proof. intros. reflexivity. Qed.
+
+(* the hypothesis *)
+Theorem C18_elim_round_hyp : forall H s v, JE H s -> invb true s ->
+  (forall c l, c < length (constrs s) -> k_elim (constr_of s c) = true ->
+     k_alts (constr_of s c) = FL.obs l -> PI H l) ->
+  (forall c w, In c (cset_of s (c_cs (cell_of s v))) -> k_elim (constr_of s c) = true ->
+     k_done (constr_of s c) = false -> follow s (k_ref (constr_of s c)) = V w ->
+     (w < length (vars s) /\ c_bound (cell_of s w) = None /\ c_cs (cell_of s w) = c_cs (cell_of s v)) \/
+     stlE H s c) ->
+  (forall c, In c (cset_of s (c_cs (cell_of s v))) -> k_elim (constr_of s c) = false ->
+     k_done (constr_of s c) = true -> pfc H 4 s (constr_of s c) = PDone) ->
+  RoundPre H s v.
+Proof. exact RoundPre_intro. Qed.
+Print Assumptions C18_elim_round_hyp.
+
+Example C18_elim_hyp_defs : forall H s c l,
+  (PI H l <-> forall x y, In x l -> In y l -> FL.le H x y = true -> x = y) /\
+  (stlE H s c <->
+   let k := constr_of s c in
+   k_done k = false /\ follow s (k_ref k) = k_ref k /\
+   exists l, k_alts k = FL.obs l /\ ForallOrdPairs (FL.incomp H) l /\ 2 <= length l /\
+             forall m, In m l -> kp H s (k_ref k) m = true) /\
+  (forall r m, kp H s r m =
+     match follow s r with
+     | V w => kpc H (cell_of s w) m
+     | O o _ => (o =? Bottom) || (basic H o && ((o =? m) || osub H false o m))
+     end) /\
+  (forall cl m, kpc H cl m =
+     (match c_lower cl with Some lo => osub H false lo m | None => true end) &&
+     (match c_upper cl with Some u => osub H false u m || osub H false m u | None => true end)).
+Proof.
+  intros. split; [reflexivity|split; [reflexivity|split; intros; reflexivity]].
+Qed.
+
+(* the filter of fulfill really is kp, and kp is monotone in the bounds *)
+Theorem C18_elim_filter_closed_form : forall H f s r m, FL.good H m -> keep H (S f) s r m = kp H s r m.
+Proof. exact keep_kp. Qed.
+
+Theorem C18_elim_filter_monotone : forall H, wf_hier H -> forall c c' m, Sound.bok H c' ->
+  c_lower c' = c_lower c ->
+  (forall u, c_upper c = Some u -> exists u', c_upper c' = Some u' /\ Lub.ole H u' u) ->
+  kpc H c' m = true -> kpc H c m = true.
+Proof. exact kpc_mono. Qed.
+Print Assumptions C18_elim_filter_monotone.
+
+(* non-vacuity: A = 5, M = 6 < A, B1 = 7 < M, B2..B4 = 8..10 < A;
+   x << [B1, B2], x << [M, B3], x << [M, B4] with x <= A; the store in which
+   above(x, B1) starts its round *)
+Example C18_elim_round_example :
+  RoundPre rH rse 0 /\
+  (forall f1 f2 sc1 sc2, 20 <= f1 -> 20 <= f2 ->
+     match check_constraints rH f1 0 (with_sched rse sc1), check_constraints rH f2 0 (with_sched rse sc2) with
+     | MOk _ t1, MOk _ t2 => eqk t1 t2
+     | MEr e1 _, MEr e2 _ => e1 <> EFuel /\ e2 <> EFuel
+     | _, _ => False
+     end) /\
+  und rse = 3 /\ cset_of rse (c_cs (cell_of rse 0)) = [0; 1; 2] /\
+  (exists t1 t2, check_constraints rH 20 0 (with_sched rse []) = MOk tt t1 /\
+                 check_constraints rH 20 0 (with_sched rse [1]) = MOk tt t2 /\
+                 map k_ref (constrs t1) = [V 0; V 0; O 7 []] /\ map k_ref (constrs t2) = [V 0; V 0; V 0] /\
+                 map k_done (constrs t1) = [true; true; true] /\
+                 c_bound (cell_of t1 0) = Some (O 7 [])).
+Proof. split; [exact rse_pre|exact rse_round]. Qed.
